@@ -218,6 +218,12 @@ func init() {
 			doc := mk(1 + r.intn(4))
 			e.emit("rvc %s", hs([]byte(doc)))
 		}
+		// invalid UTF-8 at the innermost level of documents nested up to the reader's limit
+		for _, dp := range []int{100, 9999, 10000} {
+			e.emit("rvc %s", hs(nest("[", "]", dp, "\"\xff\"")))
+			e.emit("rvc %s", hs(nest(`{"a":`, "}", dp-1, "{\"k\xff\":\"v\xfe\"}")))
+			e.emit("rvc %s", hs(nest(`[{"a\xc3":`, "}]", dp/2, "\"\xe2\x82\"")))
+		}
 		// long strings: an invalid byte somewhere, and a valid multi-byte character (or an invalid
 		// fragment) straddling every offset near the powers of two and their multiples up to 8 KiB, so
 		// that an implementation converting in fixed-size chunks or windows is exercised at its seams
@@ -375,6 +381,13 @@ func strHistories(e *emitter, r *rng, thorough bool) {
 					e.emit("strhist %d %s:%s %s:%s %s:%s", capn, opp[0], hs([]byte(a)), opp[1], hs([]byte(b)), opp[0], hs([]byte(a)))
 				}
 			}
+		}
+	}
+	// the current target spells the RAW text of the next input (decoded from an escaped form first)
+	for _, pr := range [][2]string{{`"C:\\new"`, `"C:\new"`}, {`"a\\"`, `"a\"b"`}, {`"x\\u0041"`, `"x\u0041"`}, {`"a\\"`, `"a\"`}, {`"a\tb"`, "\"a\tb\""}, {`"q\"r"`, `"q"r"`}, {`"plain"`, `"plain"`}, {`""`, `""`}} {
+		for _, capn := range []int{-1, 0, 64} {
+			e.emit("strhist %d dec:%s dec:%s dec:%s", capn, hs([]byte(pr[0])), hs([]byte(pr[1])), hs([]byte(pr[0])))
+			e.emit("strhist %d dec:%s rs:%s dec:%s", capn, hs([]byte(pr[0])), hs([]byte(pr[1])), hs([]byte(pr[1])))
 		}
 	}
 	for i := 0; i < hn; i++ {
